@@ -187,33 +187,35 @@ theorem parseSpaces_ok {sp : Spaces} {n : Nat} {l : List Nat} (h : parseSpaces s
       exact ⟨by simp, rfl⟩
     · split at h
       · cases h
-      · rename_i hb
-        split at h
+      · split at h
         · cases h
-        · simp only [Except.ok.injEq] at h
-          subst h
-          have hall : ∀ i ∈ li, 0 ≤ i ∧ i < n := by
-            intro i hi
-            constructor
-            · by_contra hc
-              exact hb (Or.inl (List.any_eq_true.mpr ⟨i, hi, by simpa using (by omega : i < 0)⟩))
-            · by_contra hc
-              exact hb (Or.inr (List.any_eq_true.mpr ⟨i, hi, by simpa using (by omega : i ≥ (n : Int))⟩))
-          refine ⟨?_, ?_⟩
-          · intro j hj
-            simp only [List.mem_map] at hj
-            obtain ⟨i, hi, rfl⟩ := hj
-            have := hall i hi
-            omega
-          · simp only [spInts, List.map_map]
-            symm
-            calc List.map (Int.ofNat ∘ Int.toNat) li = List.map id li := by
-                  apply List.map_congr_left
-                  intro i hi
-                  have := hall i hi
-                  simp only [Function.comp, Int.ofNat_eq_natCast, id]
-                  omega
-              _ = li := List.map_id _
+        · rename_i hb
+          split at h
+          · cases h
+          · simp only [Except.ok.injEq] at h
+            subst h
+            have hall : ∀ i ∈ li, 0 ≤ i ∧ i < n := by
+              intro i hi
+              constructor
+              · by_contra hc
+                exact hb (Or.inl (List.any_eq_true.mpr ⟨i, hi, by simpa using (by omega : i < 0)⟩))
+              · by_contra hc
+                exact hb (Or.inr (List.any_eq_true.mpr ⟨i, hi, by simpa using (by omega : i ≥ (n : Int))⟩))
+            refine ⟨?_, ?_⟩
+            · intro j hj
+              simp only [List.mem_map] at hj
+              obtain ⟨i, hi, rfl⟩ := hj
+              have := hall i hi
+              omega
+            · simp only [spInts, List.map_map]
+              symm
+              calc List.map (Int.ofNat ∘ Int.toNat) li = List.map id li := by
+                    apply List.map_congr_left
+                    intro i hi
+                    have := hall i hi
+                    simp only [Function.comp, Int.ofNat_eq_natCast, id]
+                    omega
+                _ = li := List.map_id _
 
 end Parse
 
